@@ -1337,8 +1337,13 @@ class AdbDevice(object):
         msg = AdbMessage(constants.WRTE, adb_info.local_id, adb_info.remote_id, filesync_info.send_buffer[:filesync_info.send_idx])
         self._io_manager.send(msg, adb_info)
 
-        # Expect an 'OKAY' in response
-        self._read_until([constants.OKAY], adb_info)
+        # Expect an 'OKAY' in response; data that the device writes in the meantime (e.g., a 'FAIL' message) must not be dropped
+        while True:
+            cmd, data = self._read_until([constants.OKAY, constants.WRTE], adb_info)
+            if cmd == constants.OKAY:
+                break
+
+            filesync_info.recv_buffer += data
 
         # Reset the send index
         filesync_info.send_idx = 0
